@@ -443,10 +443,10 @@ static void gen_zoo(const char *prop, int tier)
 	}
 	/* the repeated-deadline kernel-timer optimisation: many wake-ups of loop 0 while one timer stays the
 	 * earliest (>= 5 in a row arms the timerfd), then the deadline moves earlier / later / away */
-	if ((!strcmp(prop, "C04") || !strcmp(prop, "C07") || !strcmp(prop, "C15") || !strcmp(prop, "C06")) && ndrv > 0 && P(30)) {
+	if ((!strcmp(prop, "C04") || !strcmp(prop, "C07") || !strcmp(prop, "C15") || !strcmp(prop, "C06")) && ndrv > 0 && P(!strcmp(prop, "C15") ? 60 : 30)) {
 		int ch = add_obj(K_CHAN, -1), f = add_obj(K_FD, 0), t1 = add_obj(K_TIMER, 0), t2 = add_obj(K_TIMER, 0), drv = nloops;
 		int64_t D = (int64_t[]){ 50000000, 400000000, 2000000000, 10000000000LL }[R(4)], s = D / (12 + R(20));
-		int k = 6 + R(5), n = k + 2 + R(8), variant = !strcmp(prop, "C06") ? 5 : R(6), j;
+		int k = 6 + R(5), n = k + 2 + R(8), variant = !strcmp(prop, "C06") ? 5 : R(6), j, ch2 = -1, f2 = -1, t3 = -1;
 		if (ch >= 0 && f >= 0 && t1 >= 0 && t2 >= 0) {
 			G->obj[f].p[0] = ch; G->obj[f].p[1] = 0; G->obj[f].p[2] = 1;
 			if (P(70))
@@ -487,8 +487,25 @@ static void gen_zoo(const char *prop, int tier)
 				add_op(CTX_CB, f, k, OP_REG, t1, 0, D / 2, 0);
 				break;
 			}
+			if (nloops >= 2 && P(50)) {
+				/* the same repeated deadline in a second loop thread: two threads each create (and
+				 * arm) a kernel timer of their own, so "timerfd_create fails from its k-th call" can
+				 * strike one thread while the other already lives with an armed timer */
+				ch2 = add_obj(K_CHAN, -1);
+				f2 = add_obj(K_FD, 1);
+				t3 = add_obj(K_TIMER, 1);
+				if (ch2 >= 0 && f2 >= 0 && t3 >= 0) {
+					G->obj[f2].p[0] = ch2; G->obj[f2].p[1] = 0; G->obj[f2].p[2] = 1;
+					add_op(CTX_SETUP, 1, 0, OP_REG, f2, 0, 0, 0);
+					add_op(CTX_SETUP, 1, 0, OP_REG, t3, 0, D + D / 7, 0);
+					add_op(CTX_CB, f2, 0, OP_CONSUME, ch2, 0, 65536, 0);
+				} else
+					ch2 = -1;
+			}
 			for (j = 0; j < n; j++) {
 				add_op(CTX_DRV, drv, 0, OP_PRODUCE, ch, 1, 1 + R(100), 0);
+				if (ch2 >= 0)
+					add_op(CTX_DRV, drv, 0, OP_PRODUCE, ch2, 1, 1 + R(100), 0);
 				add_op(CTX_DRV, drv, 0, OP_SLEEP, 0, s, 0, 0);
 			}
 			if (variant == 2) {
@@ -554,6 +571,14 @@ int gen_plan(struct plan *p, const char *scenario, const char *prop, uint64_t se
 		r = 0;
 	} else
 		r = gen_ext(p, scenario, prop, tier);
+	if (r == 0) {
+		/* task structures initialised by the first thread on behalf of another loop thread */
+		int i;
+		for (i = 0; i < p->nobj; i++)
+			if (p->obj[i].kind == K_TASK && p->obj[i].owner > 0 && p->obj[i].owner < p->nthr &&
+			    p->thr[p->obj[i].owner].kind == 'L' && P(20))
+				p->obj[i].p[3] = 1;
+	}
 	if (r == 0) {
 		/* an application that calls iv_quit and later simply runs the loop again, with everything that is
 		 * registered left in place (drawn after everything else) */
